@@ -5,5 +5,5 @@ IDS="${@:-C01 C02 C03 C04 C05 C06 C07 C08 C09 C10 C11 C12 C13 C14 C15 C16 C17 C1
 cd "$(dirname "$0")/.."
 for id in $IDS; do
   out=$(VERIF_SEED=$SEED ./check $id --tier $TIER --no-evidence 2>&1); rc=$?
-  echo "$id seed=$SEED tier=$TIER rc=$rc $(echo "$out" | grep -E '^(VIOLATION|INCONCLUSIVE)' | head -2 | tr '\n' ' ' | cut -c1-200) $(echo "$out" | head -1 | grep -o '[0-9.]*s$')"
+  echo "$id seed=$SEED tier=$TIER rc=$rc $(echo "$out" | grep -E '^(VIOLATION|INCONCLUSIVE)' | head -2 | tr '\n' ' ' | cut -c1-200) $(echo "$out" | grep -o 'HARNESS-ERRORS=[0-9]*' | head -1) $(echo "$out" | grep -o '[0-9.]*s$' | head -1)"
 done
